@@ -89,10 +89,11 @@ def invoke(exe, text, flags, out, src, tmp, idx):
             pfile = os.path.join(tmp, "out%d.raw" % idx)
             with open(pfile, "wb") as f:      # an existing, longer file at the target must be replaced
                 f.write(b"\xee" * 9000)
-            args += ["-P", pfile]
+            args += ["-P", os.path.basename(pfile)]
         elif r == "o":
+            # relative to the working directory: asmline -o refuses any path that contains a '.', also in a directory name
             pfile = os.path.join(tmp, "obj%d" % idx)
-            args += ["-o", pfile]
+            args += ["-o", os.path.basename(pfile)]
             pfile += ".bin"
         elif r == "r":
             args.append("-r")
@@ -104,7 +105,7 @@ def invoke(exe, text, flags, out, src, tmp, idx):
         args.append(path)
         stdin = subprocess.DEVNULL
     p = subprocess.run(args, input=(text.encode() if src == "stdin" else None), stdin=stdin if src == "file" else None,
-                       stdout=subprocess.PIPE, stderr=subprocess.DEVNULL, timeout=20)
+                       stdout=subprocess.PIPE, stderr=subprocess.DEVNULL, timeout=20, cwd=tmp)
     data = None
     if pfile and os.path.exists(pfile):
         with open(pfile, "rb") as f:
